@@ -393,7 +393,8 @@ def p5(ctx, fx, I):
         else:
             ctx.finding("C05.P5", sd, "sd_for_key:%s" % k, "strategy %s designates %r (expected %s): the set of hidden claims differs from the documented strategy" % (k, got, w))
     v = tab.get("Custom")
-    okc = v is not None and v.kind == "call" and v.d["term"].get("name") == "contains" and len(v.kids) == 2 and peel(v.kids[1]).kind == "param" and may(v.kids[0], lambda x: x.kind == "variant" and x.d.get("variant") == "Custom")
+    mb = common.membership(v) if v is not None else None
+    okc = mb is not None and peel(mb[1]).kind == "param" and may(mb[0], lambda x: x.kind == "variant" and x.d.get("variant") == "Custom")
     if okc:
         ctx.ok("C05.P5", sd, "sd_for_key:Custom", "Custom -> the listed paths contain exactly this key")
     else:
